@@ -4,7 +4,7 @@ from .. import udcommon
 
 def run(ctx):
     ctx.rule = udcommon.RULE
-    udcommon.run(ctx, "C08-", 60 if ctx.quick else 3000)
+    udcommon.run(ctx, "C08-", 60 if ctx.quick else 600)
     ctx.assumptions = ["references of the topranking vectors are A/C/G/T (as the statement says); updown list is also run on IUPAC references",
                        "--threshold-pair values are multiples of 1/4 (exact in float32); either --dist-all or all three per-bin limits are given",
                        "C09 compares the four outputs byte for byte in the harness; agreement of the common output with the spec is C08's verdict"]
